@@ -28,6 +28,11 @@ RULE = (
     "and k under several RandomStates, cast of members, decoding of unit-cube points (random, corners, edge "
     "midpoints, bin borders k/n +- 1e-9), encoding + decoding of members, bounds, active sub-range, fixed last "
     "position, JSON round trip; then the space as a whole is checked against the per-domain results. "
+    "Naming / ordering: 3 ranges per space with random key names, name_last_pos on a first / middle / last key "
+    "combined with prefix_keys (often a key sorting after it), an active sub-space and a fixed value; internal_keys "
+    "vs the documented order, encoded_ranges, bound blocks, encoded / decoded column blocks per key vs the "
+    "single-domain ranges of that key, config_to_tuple / tuple_to_config / config_to_match_string (default, "
+    "skip_last, keys=...). "
     "Multi-step histories on ONE live ranges object (single domain, whole space, ExtendedConfiguration's "
     "hp_ranges_ext): value_for_last_pos is re-assigned 3..7 times (other member, same, earlier value, None) and "
     "after every assignment, in random order, get_ndarray_bounds / vectors inside the bounds / random_config(s) / "
@@ -52,6 +57,9 @@ ASSUMPTIONS = [
     "neighbours differ by far more than float64 round-off in the single encoded coordinate",
     "right type = isinstance(value, domain.value_type) (numpy.float64 is a float; numpy integer types are not int)",
     "vectors passed to from_ndarray have every coordinate in [0, 1] exactly",
+    "ordering rule taken from the HyperparameterRanges docstring: keys sorted; prefix_keys first in the given order; "
+    "the name_last_pos key moved to the end; prefix_keys never contains the name_last_pos key (the two documented "
+    "rules would contradict each other there)",
     "histories: value_for_last_pos is a public attribute that callers re-assign on a live object (the multi-fidelity "
     "GP searcher does before every get_config); only members whose plain round trip held are assigned; what a live "
     "object returns must equal what a freshly constructed object with the same arguments returns (exact equality of "
@@ -141,6 +149,21 @@ def floors(tier):
         "history:value_changed:float_last_pos": 500 * m,
         "history:value_changed:cat_last_pos": 300 * m,
         "history:value_changed:fin_last_pos": 300 * m,
+        # naming / ordering under name_last_pos combined with the other ordering features
+        "decided:order_variant": 2000 * m,
+        "decided:order_bounds": 2000 * m,
+        "decided:order_columns": 15000 * m,
+        "decided:order_tuple": 5000 * m,
+        "decided:order_sampling": 2000 * m,
+        "order:last_moved+prefix_any": 1000 * m,
+        "order:last_moved+prefix_key_sorting_after_last": 800 * m,
+        "order:last_is_first_key+prefix": 300 * m,
+        "order:last_moved_3plus_keys": 1000 * m,
+        "order:last_moved+prefix+active": 100 * m,
+        "order:last_moved+prefix+fixed": 100 * m,
+        "order:last_moved+prefix+active+fixed": 50 * m,
+        "order:last_moved+active": 30 * m,
+        "order:prefix": 60 * m,
     })
     return f
 
@@ -1765,6 +1788,8 @@ def _check_space(o, doms, seed):
                 viol("space", f"space_random_config_nonmember:{D.ctor}:{D.nonmember_cond(how)}:{how}", {"key": k, "value": cfg[k]})
     # histories on ONE live object: value_for_last_pos re-assigned between calls (space and ExtendedConfiguration)
     _space_histories(o, rng, S, by_name, hp, viol)
+    # naming / ordering: name_last_pos on a first / middle key combined with prefix_keys, active space, fixed value
+    _space_ordering(o, rng, by_name, viol)
     # active sub-ranges on a subset + fixed last position
     act = {k: by_name[k].Ad for k in order if by_name[k].Ad is not None and by_name[k].bounds_active is not None
            and "active" not in by_name[k].bad_clauses and rng.random() < 0.7}
@@ -1853,6 +1878,202 @@ def _check_space(o, doms, seed):
         if not same:
             viol("json", "space_json_encodes_differently", {"config": config, "json": txt[:600]})
             break
+
+
+_KEY_POOL = ["alpha", "epoch", "task", "zeta", "Beta", "lr", "x_1", "x_10", "x_2", "momentum", "Width", "a", "b0", "n_units",
+             "dropout", "_t", "resource", "z9"]
+
+
+def _space_ordering(o, rng, by_name, viol):
+    """Which encoded columns / tuple positions belong to which hyper-parameter: ranges are built with
+    ``name_last_pos`` on a first / middle / last key combined with ``prefix_keys``, an active sub-space and a
+    fixed value; the internal order is compared with the documented rule (sorted keys; prefix keys first in
+    the given order; the name_last_pos key moved to the end) and every column block, bound, tuple position
+    and match-string part is compared with what the single-domain ranges of *that* hyper-parameter gave."""
+    from syne_tune.optimizer.schedulers.searchers.utils.hp_ranges_factory import make_hyperparameter_ranges
+
+    doms = [by_name[k] for k in sorted(by_name)]
+    doms = [D for D in doms if D.members_rt]
+    if len(doms) < 2:
+        o.count("order_not_applicable")
+        return
+    for variant in range(3):
+        names = rng.sample(_KEY_POOL, len(doms))
+        B = dict(zip(names, doms))
+        S = {nm: D.d for nm, D in B.items()}
+        S["const_epochs"] = 7
+        srt = sorted(names)
+        # name_last_pos: mostly a key that is NOT already last in the sorted order
+        r = rng.random()
+        if r < 0.12:
+            last = None
+        elif r < 0.22:
+            last = srt[-1]
+        else:
+            last = rng.choice(srt[:-1])
+        # prefix_keys: ordered subset without the last-position key; often a key that sorts after it
+        pk = None
+        cand = [k for k in names if k != last]
+        if rng.random() < 0.75 and cand:
+            pk = rng.sample(cand, rng.randint(1, len(cand)))
+            after = [k for k in cand if last is not None and k > last]
+            if after and rng.random() < 0.6 and not any(k > last for k in pk):
+                pk.insert(rng.randrange(len(pk) + 1), rng.choice([k for k in after if k not in pk]))
+        act = {k: B[k].Ad for k in names if B[k].Ad is not None and B[k].bounds_active is not None
+               and not ({"active", "sample"} & B[k].bad_clauses) and rng.random() < 0.4}
+        fixed_i = None
+        if last is not None and last not in act and "fixed_last_pos" not in B[last].bad_clauses and rng.random() < 0.5:
+            fixed_i = rng.choice([i for i, m in enumerate(B[last].members) if i in B[last].enc and any(m is x for x in B[last].members_rt)])
+        fixed = None if fixed_i is None else B[last].members[fixed_i]
+        # documented order
+        ref = list(pk or []) + [k for k in srt if k not in (pk or [])]
+        if last is not None:
+            ref = [k for k in ref if k != last] + [last]
+        moved = last is not None and srt[-1] != last
+        feats = []
+        if last is not None:
+            feats.append("last_moved" if moved else "last_already_last")
+        if pk:
+            feats.append("prefix")
+        if act:
+            feats.append("active")
+        if fixed is not None:
+            feats.append("fixed")
+        ft = "+".join(feats) or "plain"
+        det0 = {"keys": {k: B[k].P for k in srt}, "name_last_pos": last, "prefix_keys": pk, "active_keys": sorted(act),
+                "value_for_last_pos": fixed, "documented_order": ref}
+
+        def rp(mech, detail):
+            d = dict(det0)
+            d.update(detail)
+            viol("order", f"{mech}:{ft}", d)
+
+        try:
+            hp = make_hyperparameter_ranges(S, name_last_pos=last, value_for_last_pos=fixed,
+                                            active_config_space=act or None, prefix_keys=None if pk is None else list(pk))
+            keys = list(hp.internal_keys)
+            er = dict(hp.encoded_ranges)
+            n = hp.ndarray_size
+            b = _fb(hp.get_ndarray_bounds())
+        except Exception as e:  # noqa: BLE001
+            rp(f"raised:order:construct:{type(e).__name__}", {"error": str(e)[:200]})
+            continue
+        o.count("decided:order_variant")
+        o.count("order:" + ft)
+        if moved and pk:
+            o.count("order:last_moved+prefix_any")
+            if any(k > last for k in pk):
+                o.count("order:last_moved+prefix_key_sorting_after_last")
+            if srt[0] == last:
+                o.count("order:last_is_first_key+prefix")
+        if moved and len(doms) >= 3:
+            o.count("order:last_moved_3plus_keys")
+        if keys != ref or len(hp) != len(names):
+            rp("order_internal_keys", {"internal_keys": keys})
+            continue
+        exp_er, pos = {}, 0
+        for k in ref:
+            exp_er[k] = (pos, pos + B[k].n)
+            pos += B[k].n
+        if n != pos:
+            rp("order_ndarray_size", {"ndarray_size": n, "expected": pos})
+            continue
+        if {k: (int(v[0]), int(v[1])) for k, v in er.items()} != exp_er:
+            rp("order_encoded_ranges", {"encoded_ranges": {k: list(map(int, v)) for k, v in er.items()}, "expected": exp_er})
+            continue
+        exp_b = []
+        for k in ref:
+            if k in act:
+                exp_b += B[k].bounds_active
+            elif k == last and fixed is not None:
+                exp_b += [(float(x), float(x)) for x in B[k].enc[fixed_i]]
+            else:
+                exp_b += B[k].bounds
+        o.count("decided:order_bounds")
+        if b != exp_b:
+            bad = [k for k in ref if b[exp_er[k][0]:exp_er[k][1]] != exp_b[exp_er[k][0]:exp_er[k][1]]]
+            rp("order_bounds_blocks", {"keys_with_wrong_block": bad, "bounds": b[:16], "expected": exp_b[:16]})
+        try:
+            for _ in range(3):
+                pick = {k: rng.choice([i for i in sorted(B[k].enc) if any(B[k].members[i] is x for x in B[k].members_rt)])
+                        for k in ref}
+                config = {k: B[k].members[i] for k, i in pick.items()}
+                # columns: encoding block of key k == single-domain encoding of its value; decoding likewise
+                e = hp.to_ndarray(dict(config, const_epochs=7) if rng.random() < 0.5 else config)
+                o.count("decided:order_columns")
+                wrong = [k for k in ref if e.shape != (n,) or not np.array_equal(e[exp_er[k][0]:exp_er[k][1]], B[k].enc[pick[k]])]
+                if wrong:
+                    rp("order_encoding_columns", {"config": config, "keys_with_wrong_block": wrong, "enc": e.tolist()[:16]})
+                    break
+                back = hp.from_ndarray(e)
+                wrong = [k for k in ref if k not in back or not _eqv(back[k], B[k].back[pick[k]])]
+                if wrong or set(back) != set(ref):
+                    rp("order_decoding_columns", {"config": config, "keys_with_wrong_value": wrong, "decoded": back})
+                    break
+                u = np.array([rng.choice([0.0, 1.0, rng.random()]) for _ in range(n)], dtype=float)
+                cfg = hp.from_ndarray(u)
+                o.count("decided:order_columns")
+                wrong = []
+                for k in ref:
+                    single = B[k].hp.from_ndarray(u[exp_er[k][0]:exp_er[k][1]])["x"]
+                    if k not in cfg or not _eqv(cfg[k], single):
+                        wrong.append(k)
+                if wrong:
+                    rp("order_decoding_columns", {"u": u.tolist()[:16], "keys_with_wrong_value": wrong, "decoded": cfg})
+                    break
+                # tuple / match-string functions (default keys, skip_last, explicit keys = prefix-style key lists)
+                o.count("decided:order_tuple")
+                tpl = hp.config_to_tuple(config)
+                if tuple(tpl) != tuple(config[k] for k in ref) or hp.tuple_to_config(tpl) != config:
+                    rp("order_config_to_tuple", {"config": config, "tuple": list(tpl)})
+                    break
+                ms = hp.config_to_match_string(config)
+                if ms != ",".join(f"{k}:{S[k].match_string(config[k])}" for k in ref):
+                    rp("order_match_string", {"config": config, "match_string": ms})
+                    break
+                short = ref[:-1] if last is not None else ref
+                tpl = hp.config_to_tuple(config, skip_last=True)
+                cfg_s = {k: config[k] for k in short}
+                if tuple(tpl) != tuple(config[k] for k in short) or hp.tuple_to_config(tpl, skip_last=True) != cfg_s:
+                    rp("order_config_to_tuple:skip_last", {"config": config, "tuple": list(tpl)})
+                    break
+                if hp.config_to_match_string(config, skip_last=True) != ",".join(
+                        f"{k}:{S[k].match_string(config[k])}" for k in short):
+                    rp("order_match_string:skip_last", {"config": config})
+                    break
+                kl = rng.sample(ref, rng.randint(1, len(ref)))
+                tpl = hp.config_to_tuple(config, keys=list(kl))
+                if tuple(tpl) != tuple(config[k] for k in kl) or hp.tuple_to_config(tpl, keys=list(kl)) != {k: config[k] for k in kl}:
+                    rp("order_config_to_tuple:keys", {"config": config, "keys_arg": kl, "tuple": list(tpl)})
+                    break
+                if hp.config_to_match_string(config, keys=list(kl)) != ",".join(
+                        f"{k}:{S[k].match_string(config[k])}" for k in kl):
+                    rp("order_match_string:keys", {"config": config, "keys_arg": kl})
+                    break
+                if list(hp.internal_keys) != ref:
+                    rp("order_internal_keys_changed_by_calls", {"internal_keys": list(hp.internal_keys)})
+                    break
+            # sampled configurations: key set, fixed value; vectors inside the bounds: per key decided by block
+            c = hp.random_config(np.random.RandomState(rng.randrange(2 ** 31)))
+            o.count("decided:order_sampling")
+            if set(c) != set(ref) or (fixed is not None and not _eqv(c[last], fixed)):
+                rp("order_random_config", {"random_config": c})
+            if b == exp_b:
+                for u in ([lo for lo, hi in b], [hi for lo, hi in b], [lo + rng.random() * (hi - lo) for lo, hi in b]):
+                    u = [min(max(x, lo), hi) for x, (lo, hi) in zip(u, b)]
+                    cfg = hp.from_ndarray(np.array(u, dtype=float))
+                    o.count("decided:order_columns")
+                    for k in ref:
+                        st, en = exp_er[k]
+                        if k == last and fixed is not None:
+                            how = _same(B[k].P, fixed, cfg[k])
+                            if how is not None:
+                                rp(f"order_fixed_value_decode:{B[k].ctor}:{how}", {"decoded": cfg[k]})
+                        elif not _eqv(cfg[k], B[k].hp.from_ndarray(np.array(u[st:en], dtype=float))["x"]):
+                            rp("order_decoding_columns", {"u": u[:16], "keys_with_wrong_value": [k], "decoded": cfg})
+                            break
+        except Exception as e:  # noqa: BLE001
+            rp(f"raised:order:{type(e).__name__}", {"error": f"{type(e).__name__}: {str(e)[:200]}"})
 
 
 def _space_histories(o, rng, S, by_name, hp_plain, viol):
